@@ -1,9 +1,10 @@
 #!/bin/sh
-# builds the vx engine binary offline from /verif/engine (setup_cmd of MANIFEST.json)
+# builds the vx engine binary offline from ./engine (setup_cmd of MANIFEST.json)
 set -e
+DIR=$(dirname "$(readlink -f "$0")")
 export PATH=/root/go/pkg/mod/golang.org/toolchain@v0.0.1-go1.25.0.linux-amd64/bin:$PATH
 export GOTOOLCHAIN=local GOFLAGS=-mod=mod GOPROXY=off
 unset GOSUMDB
-cd /verif/engine
-mkdir -p /verif/build
-go build -o /verif/build/vx ./cmd/vx
+cd "$DIR/engine"
+mkdir -p "$DIR/build"
+go build -o "$DIR/build/vx" ./cmd/vx
